@@ -66,3 +66,110 @@ Example C01_chol_instance : exists R0,
   cholesky ROps 2 (fun i j => match i, j with 0%nat, 0%nat => 4 | 1%nat, 1%nat => 5 | _, _ => 2 end) = Some R0 /\
   R0 0%nat 0%nat = 2 /\ R0 1%nat 0%nat = 1 /\ R0 1%nat 1%nat = 2.
 Proof. exact chol_example. Qed.
+
+(* ========================================= LU ========================================= *)
+From SC Require Import C01.Proofs_lu.
+
+(* lu_mut on EVERY square real matrix (no non-singularity hypothesis is needed: a zero pivot after
+   pivoting by largest absolute value means the rest of the column is zero, the division is
+   skipped and the factorisation still holds): P*A = L*U entrywise, L unit lower triangular with
+   |L_ij| <= 1 (partial pivoting), U upper triangular, the pivot vector a permutation of 0..n-1. *)
+Theorem C01_lu_exact : forall (n : nat) (A : @Mx R),
+  let st := lu_mut ROps n n A in
+  let L := lu_L ROps (lu_A st) in let U := lu_U ROps (lu_A st) in
+  (forall i j, (i < n)%nat -> (j < n)%nat -> mmul n L U i j = A (lu_piv st i) j) /\
+  (forall i j, (i < n)%nat -> (j < n)%nat -> Rabs (L i j) <= 1) /\
+  (forall i, L i i = 1) /\ (forall i j, (i < j)%nat -> L i j = 0) /\
+  (forall i j, (j < i)%nat -> U i j = 0) /\
+  Permutation (map (lu_piv st) (seq 0 n)) (seq 0 n).
+Proof. exact lu_exact. Qed.
+
+(* LU::pivot() is the permutation matrix of the pivot vector: row i has its 1 in column piv i,
+   hence (P*A) i j = A (piv i) j, the right-hand side of C01_lu_exact. *)
+Theorem C01_lu_pivot_matrix : forall n piv i j, (i < n)%nat ->
+  lu_P ROps n piv i j = (if Nat.eqb j (piv i) then 1 else 0).
+Proof. exact lu_P_spec. Qed.
+
+(* forward elimination with a unit lower factor and back substitution with an upper factor whose
+   diagonal is non-zero solve their triangular systems exactly (shared by the LU and QR solvers) *)
+Theorem C01_forward_substitution : forall n bn LU X0, let X1 := lu_forward ROps n bn LU X0 in
+  (forall i j, (i < n)%nat -> (j < bn)%nat -> X1 i j + rsum i (fun t => LU i t * X1 t j) = X0 i j) /\
+  (forall i j, (n <= i)%nat \/ (bn <= j)%nat -> X1 i j = X0 i j).
+Proof. exact lu_forward_spec. Qed.
+Theorem C01_back_substitution : forall n bn Uo dg X1, (forall k, (k < n)%nat -> dg k <> 0) ->
+  let X2 := back_subst ROps n bn Uo dg X1 in
+  (forall i j, (i < n)%nat -> (j < bn)%nat ->
+     dg i * X2 i j + rsum (n - S i) (fun t => Uo i (S i + t)%nat * X2 (S i + t)%nat j) = X1 i j) /\
+  (forall i j, (n <= i)%nat \/ (bn <= j)%nat -> X2 i j = X1 i j).
+Proof. exact back_subst_spec. Qed.
+
+(* lu_solve_mut: whenever it returns (i.e. no exactly zero pivot) the result solves A X = b exactly;
+   inverse() returns a right inverse. *)
+Theorem C01_lu_solve_exact : forall n bn (A b X : @Mx R), lu_solve_mut ROps n bn A b = Some X ->
+  forall i j, (i < n)%nat -> (j < bn)%nat -> rsum n (fun k => A i k * X k j) = b i j.
+Proof. exact lu_solve_exact. Qed.
+Theorem C01_lu_inverse_exact : forall n (A X : @Mx R),
+  (let st := lu_mut ROps n n A in lu_inverse ROps n (lu_A st) (lu_piv st)) = Some X ->
+  forall i j, (i < n)%nat -> (j < n)%nat -> mmul n A X i j = (if Nat.eqb i j then 1 else 0).
+Proof. exact lu_inverse_exact. Qed.
+
+(* satisfiable and non-trivial: [[1,2],[3,4]] x = [5,6] is solved, and a row swap really happens *)
+Example C01_lu_instance : exists X,
+  lu_solve_mut ROps 2 1
+    (fun i j => match i, j with 0%nat, 0%nat => 1 | 0%nat, _ => 2 | _, 0%nat => 3 | _, _ => 4 end)
+    (fun i _ => match i with 0%nat => 5 | _ => 6 end) = Some X.
+Proof. exact lu_example. Qed.
+
+(* ========================================= SVD ========================================= *)
+From SC Require Import C01.Proofs_svd.
+
+(* SVD::solve for ANY factors with orthonormal columns (this is what the search validates per run for
+   the factors svd_mut returns; convergence of the sweeps is not a theorem) such that every singular
+   value is either above the routine's threshold or exactly zero: the result satisfies the normal
+   equations A^T (A X - b) = 0 for A = U diag(s) V^T  (for square non-singular A this is A X = b;
+   for tall A it is the least-squares solution; for rank-deficient A see the next theorem). *)
+Theorem C01_svd_solve_lsq : forall eps m n p U s V b,
+  orthocols m n U -> orthocols n n V -> orthorows n V ->
+  (forall j, (j < n)%nat -> svd_tol ROps eps m n s < s j \/ s j = 0) ->
+  let A := svd_A n U s V in let X := svd_solve ROps eps m n p U s V b in
+  forall c k, (c < n)%nat -> (k < p)%nat ->
+    rsum m (fun i => A i c * (rsum n (fun t => A i t * X t k) - b i k)) = 0.
+Proof. exact svd_solve_lsq. Qed.
+
+(* ... and among all solutions of the normal equations it is one of minimum Euclidean norm. *)
+Theorem C01_svd_solve_min_norm : forall eps m n p U s V b,
+  orthocols m n U -> orthocols n n V -> orthorows n V ->
+  (forall j, (j < n)%nat -> svd_tol ROps eps m n s < s j \/ s j = 0) ->
+  let A := svd_A n U s V in let X := svd_solve ROps eps m n p U s V b in
+  forall k (y : nat -> R), (k < p)%nat ->
+    (forall c, (c < n)%nat -> rsum m (fun i => A i c * (rsum n (fun t => A i t * y t) - b i k)) = 0) ->
+    rsum n (fun t => X t k * X t k) <= rsum n (fun t => y t * y t).
+Proof. exact svd_solve_min_norm. Qed.
+
+(* The tail of svd_mut (shell sort with joint column moves, then sign normalisation) applied to ANY
+   state: columns of U, V and the entries of w are jointly permuted and columns jointly negated, so
+   U diag(w) V^T is unchanged, orthonormality of the columns and non-negativity of w are preserved,
+   and w ends non-increasing. *)
+Theorem C01_svd_post_invariant : forall m n st, let st' := svd_post ROps m n st in
+  (exists sigma e, col_rel m n st st' sigma e) /\
+  (forall i k, (i < m)%nat -> (k < n)%nat ->
+     rsum n (fun j => sU st' i j * sw st' j * sV st' k j) = rsum n (fun j => sU st i j * sw st j * sV st k j)) /\
+  (forall a b, (a <= b)%nat -> (b < n)%nat -> sw st' b <= sw st' a) /\
+  ((forall j, (j < n)%nat -> 0 <= sw st j) -> forall j, (j < n)%nat -> 0 <= sw st' j) /\
+  (orthocols m n (sU st) -> orthocols m n (sU st')) /\ (orthocols n n (sV st) -> orthocols n n (sV st')).
+Proof. exact svd_post_invariant. Qed.
+
+(* hypotheses of the solve theorems are satisfiable, in the full-rank and in the rank-deficient case *)
+Example C01_svd_instance_rank_deficient : forall eps, 0 <= eps <= / 4 ->
+  let U := identity ROps in let V := identity ROps in
+  let s := fun j : nat => if Nat.eqb j 0 then 2 else 0 in
+  orthocols 2 2 U /\ orthocols 2 2 V /\ orthorows 2 V /\
+  (forall j, (j < 2)%nat -> svd_tol ROps eps 2 2 s < s j \/ s j = 0).
+Proof. exact svd_lsq_hyps_rank_deficient. Qed.
+(* the tail really moves columns: w = (1,2), U = V = I ends as w = (2,1) with the columns exchanged *)
+Example C01_svd_post_instance :
+  let st' := svd_post ROps 2 2 ex_st in
+  sw st' 0%nat = 2 /\ sw st' 1%nat = 1 /\
+  (forall i j, (i < 2)%nat -> (j < 2)%nat -> sU st' i j = identity ROps i (1 - j)%nat) /\
+  (forall i j, (i < 2)%nat -> (j < 2)%nat -> sV st' i j = identity ROps i (1 - j)%nat).
+Proof. exact svd_post_example. Qed.
